@@ -6,7 +6,7 @@ import ast, hashlib, os, sys, traceback
 
 REPO = os.environ.get("VERIF_REPO", "/repo")
 PKG = os.path.join(REPO, "jsonpath_rfc9535")
-OUT = "/verif/coq/Gen"
+OUT = os.path.join(os.environ.get("VERIF_ROOT", "/verif"), "coq", "Gen")
 
 
 class Unsupported(Exception):
@@ -72,5 +72,5 @@ def generate():
 
 if __name__ == "__main__":
     import json
-    sys.path.insert(0, "/verif/tools")
+    sys.path.insert(0, os.path.join(os.environ.get("VERIF_ROOT", "/verif"), "tools"))
     print(json.dumps(generate(), indent=1))
